@@ -163,6 +163,20 @@ elab "subst_fst" : tactic => withMainContext do
         return
   throwError "subst_fst: no hypothesis of the form e = (x, _)"
 
+/-- apply a hypothesis whose conclusion is an `Evolves` statement (induction hypotheses, closures) -/
+elab "ev_hyp" : tactic => withMainContext do
+  let lctx ← getLCtx
+  for d in lctx do
+    if d.isImplementationDetail then continue
+    let ty ← instantiateMVars d.type
+    if ty.getForallBody.isAppOf ``Evolves then
+      let hStx ← Term.exprToSyntax d.toExpr
+      try
+        evalTactic (← `(tactic| apply $hStx))
+        return
+      catch _ => pure ()
+  throwError "ev_hyp: no applicable hypothesis"
+
 /-- closes `CoreEq a b` when `b` is `a` with non-core fields changed -/
 syntax "core_tac" : tactic
 macro_rules | `(tactic| core_tac) => `(tactic| first | exact ⟨rfl, rfl, rfl, rfl⟩ | (constructor <;> simp <;> done))
@@ -170,12 +184,12 @@ macro_rules | `(tactic| core_tac) => `(tactic| first | exact ⟨rfl, rfl, rfl, r
 /-- one backward step on a goal `Evolves P N s0 (op … s …)`: extended with `macro_rules` after
     every lemma -/
 syntax "ev_step" : tactic
-macro_rules | `(tactic| ev_step) => `(tactic| (refine Evolves.of_store_eq ?_ (by simp; done)))
+macro_rules | `(tactic| ev_step) => `(tactic| (refine Evolves.of_store_eq (s := ?s) ?h ?e; case e => (simp; rfl)))
 macro_rules
   | `(tactic| ev_step) => `(tactic| (refine Evolves.modStream ?_ _ _ (fun _ _ => Good.core (by core_tac))))
 macro_rules
   | `(tactic| ev_step) => `(tactic| (refine Evolves.modStreamW ?_ _ _ (fun _ _ => Good.core (by core_tac))))
-macro_rules | `(tactic| ev_step) => `(tactic| apply_assumption)
+macro_rules | `(tactic| ev_step) => `(tactic| ev_hyp)
 
 /-- repeat `ev_step`, splitting `if`/`match` and eliminating result pairs on the way -/
 macro "ev" : tactic => `(tactic| repeat (first | assumption | exact Evolves.refl _ | ev_step | subst_fst | split))
